@@ -208,7 +208,14 @@ class Client(ClientLike):
 
         self.send_message(msg2)
         self.send_message(msg)
-        ack_msg = self._wait_for_acknowledgement()
+        try:
+            ack_msg = self._wait_for_acknowledgement()
+        except Exception:
+            # No acknowledgement: this is not a session. Do not stay "connected" with the
+            # subscription sets (and, for a dynamic id, module_id 0) of the previous one.
+            self._connected = False
+            self._sock.close()
+            raise
 
         # save own module ID from ACK if asked to be assigned dynamic ID
         if self._module_id == 0:
